@@ -3,6 +3,7 @@ package rules
 import (
 	"fmt"
 	"go/types"
+	"morlockverif/checker/internal/core"
 	"sort"
 	"strings"
 
@@ -63,7 +64,7 @@ func newBoardModel(c *Ctx, rule string) *boardModel {
 	}
 	st := b.moveT.Underlying().(*types.Struct)
 	for i := 0; i < st.NumFields(); i++ {
-		b.moveIdx[st.Field(i).Name()] = i
+		b.moveIdx[core.FieldName(st.Field(i))] = i
 	}
 	for _, n := range []string{"Type", "From", "To", "Piece", "Promotion", "Capture"} {
 		if _, ok := b.moveIdx[n]; !ok {
@@ -368,7 +369,7 @@ func (b *boardModel) runPositionMove(s moveSeed, opaqueLost bool) (oks []okPath,
 			if cell, ok := o.St.Mem[ptr.C].(*absint.Struct); ok {
 				stt := cell.T.Underlying().(*types.Struct)
 				for i := 0; i < stt.NumFields(); i++ {
-					switch stt.Field(i).Name() {
+					switch core.FieldName(stt.Field(i)) {
 					case "castling":
 						p.castling = vstrOf(cell.F[i])
 					case "enpassant":
